@@ -11,26 +11,31 @@ from vf.tlaval import parse_value, to_py
 META = dict(
     property_id="C32", level="model_checking", design_ref="DESIGN.md §4 C32",
     technique="TLA+ state machine of one branch + repository and the client operations on it (BranchOps: effect and "
-              "return value of every operation defined once, no access path in the state) model-checked by TLC; a "
-              "transition cover of TLC's state graph replayed from identical fixtures on the local path and through "
-              "bzr:// (in-process smart server, protocol v3, with and without VFS verbs); returned values and the "
-              "on-disk projection recorded after every call and judged by TLC (BranchOpsTrace)",
+              "return value of every operation defined once, no access path in the state) model-checked by TLC; paths of "
+              "TLC's state graph - all lock-holding sessions with every observer after every call, plus a sample of an "
+              "edge cover - replayed from identical fixtures on the local path and through bzr:// (in-process smart "
+              "server, protocol v3, with and without VFS verbs); returned values and the on-disk projection recorded "
+              "after every call and judged by TLC (BranchOpsTrace)",
     level_text="TLC enumerates every sequence of <= 4 (quick) / 5 (thorough) state-changing client operations "
                "(commit, fetch, set tip, generate_revision_history, pull, push, set/delete tag, set config option, "
                "lock_write / unlock) over 5 prepared revisions, 2 source branches, 2 tag names, 1 config key, with all "
-               "reads (last_revision_info, revision_id_to_revno, get_rev_id, get_parent_map, get_revision + "
-               "revision_tree, tags, config, all_revision_ids, pull / push out of the branch, token re-lock, "
-               "contention) as self-loops, and proves the model's invariants. Paths covering that graph's edges are "
-               "executed twice on real branches - BzrBranch on the backing transport and RemoteBranch over a real "
-               "SmartServerPipeStreamMedium - and must agree step by step, with each other (the property) and with "
-               "the specification (conformance).",
-    level_note="The replayed paths are a seeded sample of the transition cover (all of it when it fits the tier's "
-               "budget) plus the two shortest paths showing the known tag-cache defect. Client and server live in one "
-               "process (synchronous in-process medium; thorough repeats 40 paths through a real SmartTCPServer on "
-               "loopback); protocol v3 only. Reads are made under a read lock, as the Repository API requires. Exception classes are "
-               "compared; for generate_revision_history of an absent revision the smart verb's documented "
-               "NoSuchRevision and the local GhostRevisionsHaveNoRevno are the same refusal. Trusted: TLC, the JSON "
-               "bridge, BranchBuilder for the prepared revisions.",
+               "reads (last_revision_info, revision_id_to_revno, get_rev_id, iter_merge_sorted_revisions, the dotted "
+               "revno map, get_parent_map, get_revision + revision_tree, tags, config, all_revision_ids, pull / push "
+               "out of the branch, token re-lock, contention) as self-loops, and proves the model's invariants. Paths of "
+               "that graph are executed twice on real branches - BzrBranch on the backing transport and RemoteBranch "
+               "over a real SmartServerPipeStreamMedium, ONE client object per path - and must agree step by step, with "
+               "each other (the property) and with the specification (conformance). Cache coherence of the long-lived "
+               "object is covered exhaustively for sessions lock_write . op . op with eight observers (tip, tags, "
+               "merge-sorted history, dotted revnos, mainline, parent map, config, push-out through the VFS fallback "
+               "object) before, between and after the operations.",
+    level_note="Besides the sessions the replayed paths are a seeded sample of the transition cover, plus the shortest "
+               "paths showing the known defects. A run that differs from the local one gets a known finding's signature "
+               "only if it is exactly what a model of that defect (two tag caches; a stale missing-revision answer) "
+               "predicts. Client and server live in one process (synchronous in-process medium; thorough repeats 40 "
+               "paths through a real SmartTCPServer on loopback); protocol v3 only. Reads are made under a read lock, as "
+               "the Repository API requires. Exception classes are compared; for generate_revision_history of an absent "
+               "revision the smart verb's documented NoSuchRevision and the local GhostRevisionsHaveNoRevno are the "
+               "same refusal. Trusted: TLC, the JSON bridge, BranchBuilder for the prepared revisions.",
 )
 
 # ----------------------------------------------------------------------------- the universe (mirrors BranchOps.tla)
